@@ -134,18 +134,19 @@ Definition init (h : heap) (f : fmt) (bk : ppl) (user : option ppl) (outf : ppl)
 (* ---- running a pipeline: every access to state/vars goes through the owner pointer ---- *)
 Definition set_state (h : heap) (pid : N) (st : dict) : heap :=
   {| h_own := h_own h; h_vars := h_vars h; h_state := upd (h_state h) pid st; h_next := h_next h |}.
-Definition m_cond (h : heap) (u : N) (c : option (str * str)) : outcome bool :=
+Definition m_cond (h : heap) (u : N) (rids : list str) (c : pcond) : outcome bool :=
   match c with
-  | None => Ok true
-  | Some kv => match h_own h u with
-               | None => SigmaErr E_ProcItem       (* "Processing pipeline must be set before matching" *)
-               | Some o => Ok (cond_holds (h_state h o) (Some kv))
-               end
+  | CNone => Ok true
+  | CApplied i => Ok (existsb (str_eqb i) rids)      (* rule.was_processed_by(i): no pipeline involved *)
+  | CState k v => match h_own h u with
+                  | None => SigmaErr E_ProcItem       (* "Processing pipeline must be set before matching" *)
+                  | Some o => Ok (cond_holds (h_state h o) rids (CState k v))
+                  end
   end.
-Record mstate := { m_conj : list (str * str); m_applied : list bool; m_ids : list str }.
+Record mstate := { m_conj : list (str * str); m_applied : list bool; m_ids : list str; m_rids : list str }.
 Definition m_item_step (acc : outcome (heap * mstate)) (i : pitem) : outcome (heap * mstate) :=
   obind acc (fun hm => let h := fst hm in let m := snd hm in
-  obind (m_cond h (i_uid i) (i_cond i)) (fun c =>
+  obind (m_cond h (i_uid i) (m_rids m) (i_cond i)) (fun c =>
     if c then
       let conj := match i_kind i with
                   | KSuffix s => map (fun fv => (fst fv ++ s, snd fv)) (m_conj m)
@@ -159,38 +160,41 @@ Definition m_item_step (acc : outcome (heap * mstate)) (i : pitem) : outcome (he
                                    end
                 | _ => h
                 end in
-      Ok (h', {| m_conj := conj; m_applied := m_applied m ++ [true]; m_ids := add_id (m_ids m) (i_id i) |})
-    else Ok (h, {| m_conj := m_conj m; m_applied := m_applied m ++ [false]; m_ids := m_ids m |}))).
-(* ProcessingPipeline.apply: resets applied, applied_ids, state of SELF, then the items *)
+      Ok (h', {| m_conj := conj; m_applied := m_applied m ++ [true]; m_ids := add_id (m_ids m) (i_id i);
+                 m_rids := add_id (m_rids m) (i_id i) |})
+    else Ok (h, {| m_conj := m_conj m; m_applied := m_applied m ++ [false]; m_ids := m_ids m; m_rids := m_rids m |}))).
+(* ProcessingPipeline.apply: resets applied, applied_ids, state of SELF, then the items; the rule object
+   is fresh *)
 Definition m_apply (h : heap) (self : ppl) (r : rule) : outcome (heap * mstate) :=
   fold_left m_item_step (p_items self)
-            (Ok (set_state h (p_id self) [], {| m_conj := [(r_field r, r_value r)]; m_applied := []; m_ids := [] |})).
+            (Ok (set_state h (p_id self) [], {| m_conj := [(r_field r, r_value r)]; m_applied := []; m_ids := []; m_rids := [] |})).
 
-Definition m_post_step (h : heap) (acc : outcome (str * list str)) (p : ppost) : outcome (str * list str) :=
-  obind acc (fun qi =>
-  obind (m_cond h (q_uid p) (q_cond p)) (fun c =>
+(* postprocess_query: item by item, each condition checked after the earlier items ran *)
+Definition m_post_step (h : heap) (acc : outcome pacc) (p : ppost) : outcome pacc :=
+  obind acc (fun a =>
+  obind (m_cond h (q_uid p) (pa_rids a) (q_cond p)) (fun c =>
     if c then
       match q_kind p with
-      | PEmbed a b => Ok (a ++ fst qi ++ b, add_id (snd qi) (q_id p))
+      | PEmbed x y => Ok (post_mark p (x ++ pa_q a ++ y) a true)
       | PTplState k => match h_own h (q_uid p) with
                        | None => Crash C_Attr            (* None.state *)
                        | Some o => match lookup k (h_state h o) with
-                                   | Some v => Ok (fst qi ++ [124] ++ v, add_id (snd qi) (q_id p))
+                                   | Some v => Ok (post_mark p (pa_q a ++ [124] ++ v) a false)
                                    | None => Crash C_Key end
                        end
       | PTplVar k => match h_own h (q_uid p) with
                      | None => Crash C_Attr
                      | Some o => match lookup k (h_vars h o) with
-                                 | Some v => Ok (fst qi ++ [124] ++ v, add_id (snd qi) (q_id p))
+                                 | Some v => Ok (post_mark p (pa_q a ++ [124] ++ v) a false)
                                  | None => Crash C_Key end
                      end
       end
-    else Ok qi)).
-Fixpoint m_post (h : heap) (ps : list ppost) (qs : list str) (ids : list str) : outcome (list str * list str) :=
+    else Ok a)).
+Fixpoint m_post (h : heap) (ps : list ppost) (qs : list str) (ids rids : list str) : outcome (list str * list str) :=
   match qs with
   | [] => Ok ([], ids)
-  | q :: qs' => obind (fold_left (m_post_step h) ps (Ok (q, ids))) (fun qi =>
-                obind (m_post h ps qs' (snd qi)) (fun r => Ok (fst qi :: fst r, snd r)))
+  | q :: qs' => obind (fold_left (m_post_step h) ps (Ok {| pa_q := q; pa_ids := ids; pa_rids := rids |})) (fun a =>
+                obind (m_post h ps qs' (pa_ids a) (pa_rids a)) (fun r => Ok (pa_q a :: fst r, snd r)))
   end.
 
 (* convert_rule for every rule (no re-initialisation), then Backend.finalize *)
@@ -199,7 +203,7 @@ Definition m_rule (f : fmt) (self : ppl) (acc : outcome (heap * racc)) (r : rule
   obind (m_apply (fst ha) self r) (fun hm => let h := fst hm in let m := snd hm in
     let st := h_state h (p_id self) in          (* ConversionState(processing_state=dict(self.state)) *)
     let q := fmt_query f st (query_of (m_conj m)) in
-    obind (m_post h (p_post self) (if r_two r then [q; q] else [q]) (m_ids m)) (fun qi =>
+    obind (m_post h (p_post self) (if r_two r then [q; q] else [q]) (m_ids m) (m_rids m)) (fun qi =>
     Ok (h, {| ra_qs := ra_qs a ++ fst qi; ra_obs := ra_obs a ++ [(m_applied m, st)]; ra_ids := snd qi |})))).
 Definition m_run (h : heap) (f : fmt) (self : ppl) (rules : list rule) : heap * outcome result :=
   match fold_left (m_rule f self) rules (Ok (h, {| ra_qs := []; ra_obs := []; ra_ids := [] |})) with
